@@ -824,6 +824,44 @@ struct LongRef {
         }
 };
 
+} // namespace
+
+// Reference hash state of the first 'goal' bytes of the periodic stream. Independent of seeds, so it is cached on
+// disk (directory $ISALSIM_REFCACHE, filled by `isalsim refcache` during setup) as the raw model state.
+RefHash long_reference(Algo a, uint64_t goal)
+{
+        build_window();
+        std::string path;
+        if (const char *dir = getenv("ISALSIM_REFCACHE"))
+                path = std::string(dir) + strfmt("/%s-%llu-v1.bin", algo_name[a], (unsigned long long) goal);
+        RefHash h(a);
+        if (!path.empty()) {
+                std::string blob = read_file(path);
+                if (blob.size() == sizeof(RefHash)) {
+                        memcpy((void *) &h, blob.data(), sizeof(RefHash));
+                        if (h.a == a && (uint64_t) h.total == goal)
+                                return h;
+                }
+        }
+        LongRef lref(a);
+        lref.advance_to(goal);
+        if (!path.empty())
+                write_file(path, std::string((const char *) &lref.h, sizeof(RefHash)));
+        return lref.h;
+}
+
+std::vector<std::pair<int, uint64_t>> long_reference_keys()
+{
+        std::vector<std::pair<int, uint64_t>> v;
+        static const uint64_t thr[3] = { 1ull << 29, 1ull << 32, (1ull << 32) + (1ull << 29) };
+        for (int a = 0; a < A_N; a++)
+                for (uint64_t t : thr)
+                        v.emplace_back(a, t + 3 * g_algos[a].block + 17);
+        return v;
+}
+
+namespace {
+
 Plan HashMgrSim::generate_long(uint64_t seed, bool thorough, uint64_t run_index)
 {
         Rng g(seed, "plan-long");
@@ -838,18 +876,14 @@ Plan HashMgrSim::generate_long(uint64_t seed, bool thorough, uint64_t run_index)
         // which thresholds to cross: 1 = 2^29, 2 = 2^32, 3 = 2^32 + 2^29
         int target;
         if (thorough)
-                target = run_index < pairs.size() ? 3 : 1;
-        else if (run_index < pairs.size())
-                target = 1;
-        else {
-                target = 2; // the extra quick runs cross 2^32 on a seed-chosen pair
-                pr = pairs[g.below(pairs.size())];
-        }
+                target = run_index < pairs.size() ? 3 : 2;
+        else
+                target = 2; // every pair crosses 2^29 and 2^32 in one stream
         p.cfg["algo"] = pr.first;
         p.cfg["family"] = pr.second;
         p.cfg["api"] = g.chance(1, 3) ? API_ISAL : API_FAMILY;
         p.cfg["target"] = target;
-        p.cfg["max_long"] = target >= 2 ? (thorough ? 2 : 1) : (thorough ? 4 : 2);
+        p.cfg["max_long"] = thorough ? 2 : 1;
         p.cfg["short_clients"] = (int) g.below(3);
         // each op: one scheduling decision; a = client selector, b = length style, c = length value, d = misc
         int nops = 400;
@@ -1045,11 +1079,8 @@ void HashMgrSim::execute_long(const Plan &p, Env &e, RunResult &r)
                         // expected digest: the shared streaming reference advanced to 'goal'
                         auto key = std::make_pair((int) d.a, goal);
                         auto it = lref_cache.find(key);
-                        if (it == lref_cache.end()) {
-                                LongRef lref(d.a);
-                                lref.advance_to(goal);
-                                it = lref_cache.emplace(key, lref.h).first;
-                        }
+                        if (it == lref_cache.end())
+                                it = lref_cache.emplace(key, long_reference(d.a, goal)).first;
                         c.ref = it->second;
                 }
                 if (ret == (uint64_t) (uintptr_t) c.ctx)
